@@ -133,13 +133,16 @@ void *lltd_port_memcpy(void *destination, const void *source, size_t num) {
 #else
     uint8_t *d = (uint8_t *)destination;
     const uint8_t *s = (const uint8_t *)source;
-    if (num <= 64) {
+    if (num <= 64 && g_req.kind != V_K_QLTV) {
+        /* constant-size copies of the TLV writers / QueryResp assembly: CBMC's own memcpy */
         memcpy(d, s, num);
     } else {
-        /* long copy: bounds of both ranges are obligations; contents are havoc + one ghost byte */
+        /* long copy: bounds of both ranges are obligations; of the contents only the ghost byte g_k is copied - the
+         * other destination bytes keep their previous value and NO obligation reads them (the payload check of the
+         * transmit oracle is stated for byte g_k, which is arbitrary).  A whole-range havoc with symbolic length made
+         * the SAT instance exceed the memory limit. */
         V_REQUIRE("C01.memcpy.src-readable: copy source inside its object", __CPROVER_r_ok(s, num));
         V_REQUIRE("C01.memcpy.dst-writable: copy destination inside its object", __CPROVER_w_ok(d, num));
-        __CPROVER_havoc_slice(d, num);
         if (g_k < num) d[g_k] = s[g_k];
     }
     return destination;
